@@ -568,6 +568,35 @@ func run(r *ev.Run) {
 		}
 	}
 	r.Extra("near_miss_hash_names", nearMiss)
+	// every byte value at every digest position of one well-formed ref per supported hash (a decoder
+	// that aliases bytes, e.g. by masking the high bit, accepts malformed strings only for bytes no
+	// ASCII alphabet contains), and at the last two positions for a few more refs
+	allBytes := 0
+	for _, name := range []string{"sha1", "sha224", "sha256"} {
+		size := supported[name]
+		for v := 0; v < 3; v++ {
+			hx := make([]byte, 2*size)
+			for i := range hx {
+				hx[i] = "0123456789abcdef"[rng.Intn(16)]
+			}
+			base := name + "-" + string(hx)
+			for pos := len(name) + 1; pos < len(base); pos++ {
+				if v > 0 && pos < len(base)-2 {
+					continue
+				}
+				for ch := 0; ch < 256; ch++ {
+					if byte(ch) == base[pos] {
+						continue
+					}
+					b := []byte(base)
+					b[pos] = byte(ch)
+					c.checkString(string(b))
+					allBytes++
+				}
+			}
+		}
+	}
+	r.Extra("all_byte_values_at_digest_positions", allBytes)
 	// over-long unknown digests
 	for _, l := range []int{126, 127, 128, 129, 130, 256, 257, 258, 300} {
 		c.checkString("foo-" + strings.Repeat("ab", l/2) + strings.Repeat("c", l%2))
